@@ -12,7 +12,6 @@ import (
 	"strings"
 	"time"
 
-	"github.com/edutko/jks-go/keystore"
 	"github.com/edutko/putty-go/ppk"
 	"github.com/edutko/putty-go/putty"
 	"github.com/google/uuid"
@@ -53,10 +52,7 @@ func Base64ASN1File(info Info, data []byte) (Info, error) {
 
 func JavaKeystore(info Info, data []byte) (Info, error) {
 	info.Description = "Java Keystore (JKS)"
-	if !jksLengthsPlausible(data) {
-		return info, fmt.Errorf("failed to parse keystore data")
-	}
-	k, err := keystore.InsecureParse(data)
+	k, err := readKeystore(data)
 	if err != nil {
 		return info, fmt.Errorf("failed to parse keystore data")
 	}
@@ -68,10 +64,7 @@ func JavaKeystore(info Info, data []byte) (Info, error) {
 
 func JCEKeystore(info Info, data []byte) (Info, error) {
 	info.Description = "Java Keystore (JCEKS)"
-	if !jksLengthsPlausible(data) {
-		return info, fmt.Errorf("failed to parse keystore data")
-	}
-	k, err := keystore.InsecureParse(data)
+	k, err := readKeystore(data)
 	if err != nil {
 		return info, fmt.Errorf("failed to parse keystore data")
 	}
